@@ -239,6 +239,50 @@ Fixpoint round_run (qs : list (Z * list (list T))) : res (list (list (list T))) 
   | q :: r => let* a := round_table (snd q) (fst q) in let* b := round_run r in Ok (a :: b)
   end.
 
+(** ** the vector harmonics when the scalar-harmonic back end may abandon an evaluation by throwing (boost reports an overflow that way at
+    very high orders): [Y lh mh = None] stands for "Spherical_Harmonics(lh, mh, theta, phi) throws".  The sums are locals of the call
+    ([std::vector<std::complex<double>> Psi(3, 0.0)]): the exception propagates out of the call, the partial sums are discarded with the frame,
+    nothing is kept for the next call.  [Ok None] = the call was abandoned by the exception (the caller may catch it and go on).
+    A history [vsh_run_x] is a list of requests (kind 0 = Vector_Spherical_Harmonics_Y, 1 = _Psi, other = Spherical_Harmonics itself, l, m, the back
+    end at the request's direction); a thrown request does not end the process. *)
+Definition vsh_term_x (comp : Z -> Z -> Z -> Z -> Z -> res (T * T)) (Y : Z -> Z -> option (T * T))
+    (i l m lh mh : Z) (acc : res (option (T * T))) : res (option (T * T)) :=
+  let* a := acc in
+  match a with
+  | None => Ok None
+  | Some s =>
+      if Z.abs mh <=? lh then
+        let* c := comp i l m lh mh in
+        match Y lh mh with
+        | None => Ok None
+        | Some y => Ok (Some (cadd Ops s (cmul Ops c y)))
+        end
+      else Ok (Some s)
+  end.
+
+Definition vsh_sum_x comp (Y : Z -> Z -> option (T * T)) (i l m : Z) : res (option (T * T)) :=
+  let t := vsh_term_x comp Y i l m in
+  t (l + 1) (m + 1) (t (l + 1) m (t (l + 1) (m - 1) (t (l - 1) (m + 1) (t (l - 1) m (t (l - 1) (m - 1) (Ok (Some (#0, #0)))))))).
+
+Definition vsh_vector_x comp (Y : Z -> Z -> option (T * T)) (l m : Z) : res (option (list (T * T))) :=
+  let* a := vsh_sum_x comp Y 0 l m in
+  match a with None => Ok None | Some a =>
+  let* b := vsh_sum_x comp Y 1 l m in
+  match b with None => Ok None | Some b =>
+  let* c := vsh_sum_x comp Y 2 l m in
+  match c with None => Ok None | Some c => Ok (Some [a; b; c]) end end end.
+
+Definition vsh_call_x (q : Z * Z * Z * (Z -> Z -> option (T * T))) : res (option (list (T * T))) :=
+  let '(kind, l, m, Y) := q in
+  if kind =? 0 then vsh_vector_x (g_VSH_Y_Component Ops) Y l m
+  else if kind =? 1 then vsh_vector_x (g_VSH_Psi_Component Ops) Y l m
+  else Ok (match Y l m with None => None | Some y => Some [y] end).
+
+Fixpoint vsh_run_x (qs : list (Z * Z * Z * (Z -> Z -> option (T * T)))) : res (list (option (list (T * T)))) :=
+  match qs with
+  | [] => Ok []
+  | q :: r => let* a := vsh_call_x q in let* b := vsh_run_x r in Ok (a :: b)
+  end.
 (** the table of a fresh process *)
 Definition daw_table0 : list T := [#0; #0; #0; #0; #0; #0].
 End Model.
